@@ -5,6 +5,12 @@
      grammar can set
   R3 dependency sets are normalised (sorted) before the topological sort
   R4 a CycleError from that sort becomes an InvalidDefinitionError
+  R5 dependencies on inherited items range over the transitive ancestor set
+  R6 the expression tracer has a handler for every expression class the
+     grammar builds and each handler visits every AST-bearing child
+  R7 WITH MODULE establishes the default module where name resolution
+     reads it
+  R8 the sort itself (C20's rules on edb.common.topological)
 """
 from __future__ import annotations
 
@@ -274,6 +280,332 @@ def run(repo: Repo, ctx) -> None:
     ctx.ob('C11.R4', 'declarative:no-other-cycle-handler', not others,
            f'CycleError is also caught in {[f.name for f in others]}',
            m.rel(), sample='single handler', nontrivial=False)
+
+
+    _r5(repo, ctx, m, sd, ri)
+    _r6(repo, ctx)
+    _r7(repo, ctx)
+    # ---- R8 -------------------------------------------------------------------
+    from . import c20
+    c20.run(repo, _Sub(ctx, 'C11.R8'))
+
+
+TRACER = 'edb.edgeql.tracer'
+EXPR_GRAMMAR = ['edb.edgeql.parser.grammar.expressions',
+                'edb.edgeql.parser.grammar.statements',
+                'edb.edgeql.parser.grammar.commondl',
+                'edb.edgeql.parser.grammar.sdl']
+
+# (class, field): AST-bearing children a trace handler does not visit today
+TRACE_UNVISITED = {
+    ('InternalGroupQuery', 'where'):
+        'FOR GROUP internal syntax (test mode only); not visited',
+    ('InternalGroupQuery', 'orderby'):
+        'FOR GROUP internal syntax (test mode only); not visited',
+}
+
+
+def _r5(repo, ctx, m, sd, ri):
+    ctx.floor('C11.R5', 5)
+    ga = repo.func(f'{DECL}.get_ancestors')
+    ctx.saw(ga)
+    # (a) the closure is transitive: the result accumulates a recursive call
+    #     for every member of the parent set
+    rec = False
+    for n in ast.walk(ga.node):
+        if isinstance(n, ast.For):
+            it = norm(n.iter)
+            for x in ast.walk(n):
+                if isinstance(x, ast.Call) and call_name(x) == \
+                        'get_ancestors' and x.args and isinstance(
+                            n.target, ast.Name) and norm(x.args[0]) == \
+                        n.target.id:
+                    # accumulated into the returned name
+                    par = _parent_stmt(n, x)
+                    if isinstance(par, ast.AugAssign) and isinstance(
+                            par.op, ast.BitOr) or (
+                            isinstance(par, ast.Expr) and 'update' in
+                            norm(par)):
+                        rec = 'parents' in it or 'parent' in it
+    ctx.ob('C11.R5', 'get_ancestors:transitive', bool(rec),
+           'get_ancestors does not accumulate the ancestors of every parent '
+           '(the set is not transitively closed)', ga.loc,
+           sample='result |= get_ancestors(fq_parent, ...)')
+    # (b) ancestors are computed for every key of ctx.parents, between the
+    #     layout pass and the dependency pass
+    pop = [n for n in ast.walk(sd.node) if isinstance(n, ast.For)
+           and norm(n.iter).startswith('ctx.parents')
+           and any(isinstance(x, ast.Assign) and norm(x.targets[0]).startswith(
+               'ctx.ancestors[') and isinstance(x.value, ast.Call)
+               and call_name(x.value) == 'get_ancestors' for x in n.body)]
+    ok = len(pop) == 1
+    if ok:
+        g = CFG(sd.node)
+        lay = [x.id for x in g.nodes if any(
+            call_name(c) == 'trace_layout' for c in g.node_calls(x))]
+        dep = [x.id for x in g.nodes if any(
+            call_name(c) == 'trace_dependencies' for c in g.node_calls(x))]
+        pn = g.nodes_of(pop[0])
+        ok = bool(lay and dep and pn) and all(
+            g.always_before(d, [pn[0]]) for d in dep) and not any(
+            l in g.reachable([pn[0]]) for l in lay)
+    ctx.ob('C11.R5', 'sdl_to_ddl:ancestors-closed-before-deps', ok,
+           'ctx.ancestors is not computed for every declared object after '
+           'the layout pass and before dependency tracing', sd.loc,
+           sample='for obj_name in ctx.parents: ctx.ancestors[obj_name] = '
+                  'get_ancestors(...)')
+    # (c) readers: inherited-item lookups use ctx.ancestors; ctx.parents is
+    #     read only for the direct-bases dependency and by the closure
+    for f in repo._funcs_of(m):
+        for n in ast.walk(f.node):
+            if isinstance(n, ast.Attribute) and n.attr == 'parents' \
+                    and norm(n.value) == 'ctx' and isinstance(
+                        n.ctx, ast.Load):
+                stmt = _stmt_of(f.node, n)
+                txt = norm(stmt) if stmt is not None else ''
+                ok = (
+                    f.name.startswith('trace_layout')
+                    or f.name in ('sdl_to_ddl', '_trace_item_layout')
+                    or (isinstance(stmt, ast.Assign)
+                        and txt.startswith('ctx.parents['))
+                    or _under_hasattr_bases(f.node, n))
+                ctx.ob('C11.R5', f'{f.name}:reads-ctx.parents', ok,
+                       f'{f.name} derives a dependency from ctx.parents '
+                       f'(direct bases only): an item inherited through an '
+                       f'intermediate type that does not redeclare it is not '
+                       f'ordered before its overload', f.loc_of(n)
+                       if hasattr(f, 'loc_of') else f.loc,
+                       sample=txt[:80])
+    for fn, want in (('_register_item', 3), ('_get_pointer_deps', 1)):
+        f = repo.func(f'{DECL}.{fn}')
+        cnt = sum(1 for n in ast.walk(f.node) if isinstance(n, ast.Attribute)
+                  and n.attr == 'ancestors' and norm(n.value) == 'ctx')
+        ctx.ob('C11.R5', f'{fn}:uses-ancestors', cnt >= want,
+               f'{fn} consults ctx.ancestors {cnt} time(s), {want} expected '
+               f'(overloaded item, view deps, constraint deps / inherited '
+               f'pointer)', f.loc, sample=f'{cnt} reads')
+    # the overloaded-item loop
+    found = False
+    for n in ast.walk(ri.node):
+        if isinstance(n, ast.For) and any(
+                isinstance(c, ast.Call) and call_name(c).endswith('qualify_name')
+                and c.args and isinstance(n.target, ast.Name)
+                and norm(c.args[0]) == n.target.id for c in ast.walk(n)):
+            from ..model import inline_locals
+            src = inline_locals(ri.node, n.iter)
+            found = True
+            ctx.ob('C11.R5', '_register_item:overload-bases',
+                   'ctx.ancestors' in src,
+                   f'same-named inherited items are looked up over '
+                   f'{src[:60]} instead of the transitive ancestor set',
+                   ri.loc, sample=src[:80])
+    if not found:
+        raise AnalysisError('C11.R5: overloaded-item loop of _register_item '
+                            'not found')
+
+
+def _parent_stmt(root, node):
+    for n in ast.walk(root):
+        if isinstance(n, ast.stmt):
+            for c in ast.iter_child_nodes(n):
+                if c is node or (not isinstance(c, ast.stmt) and any(
+                        x is node for x in ast.walk(c))):
+                    return n
+    return None
+
+
+def _stmt_of(root, node):
+    best = None
+    for n in ast.walk(root):
+        if isinstance(n, ast.stmt) and not isinstance(
+                n, (ast.FunctionDef, ast.If, ast.For, ast.While, ast.With,
+                    ast.Try)):
+            if any(x is node for x in ast.walk(n)):
+                best = n
+    return best
+
+
+def _under_hasattr_bases(root, node) -> bool:
+    for n in ast.walk(root):
+        if isinstance(n, ast.If) and 'bases' in norm(n.test) and any(
+                x is node for b in n.body for x in ast.walk(b)):
+            return True
+    return False
+
+
+def _r6(repo, ctx):
+    ctx.floor('C11.R6', 40)
+    mods = [x for x in EXPR_GRAMMAR if x in repo.modules]
+    G = V.constructed(repo, mods, 'qlast', QLAST)
+    reg = V.singledispatch_registry(repo, TRACER, 'trace')
+    if len(reg) < 30:
+        raise AnalysisError('C11.R6: trace registry not found')
+    tm = repo.module(TRACER)
+    base = repo.func(f'{TRACER}.trace')
+    ok = any(isinstance(x, ast.Raise) for x in base.node.body)
+    ctx.ob('C11.R6', 'trace:default-raises', ok,
+           'the fallback of qltracer.trace no longer raises: an expression '
+           'class without handler is silently untraced', base.loc,
+           sample='raise NotImplementedError')
+    fr = V.FieldReads(repo)
+
+    def handled(q):
+        return V.dispatch(repo, reg, q) is not None
+
+    def ast_bearing(ann) -> bool:
+        for x in ast.walk(ann):
+            nm = None
+            if isinstance(x, ast.Name):
+                nm = x.id
+            elif isinstance(x, ast.Constant) and isinstance(x.value, str):
+                nm = x.value
+            if nm and f'{QLAST}.{nm}' in repo.classes:
+                q = f'{QLAST}.{nm}'
+                if f'{QLAST}.Base' in repo.mro(q) and (
+                        handled(q) or any(handled(s)
+                                          for s in repo.subclasses(q))):
+                    return True
+        return False
+
+    for q in sorted(G):
+        mro = repo.mro(q)
+        nm = q.split('.')[-1]
+        if f'{QLAST}.Expr' not in mro:
+            continue
+        if f'{QLAST}.Command' in mro or f'{QLAST}.DDL' in mro:
+            continue      # statements that cannot nest inside an expression
+        h = V.dispatch(repo, reg, q)
+        ctx.ob('C11.R6', f'trace:{nm}', h is not None,
+               f'the grammar builds qlast.{nm} but qltracer.trace has no '
+               f'handler for it: a schema expression using it fails with '
+               f'NotImplementedError', tm.rel(),
+               sample=h.name if h else None)
+        if h is None:
+            continue
+        ctx.saw(h)
+        reads = fr.reads(h, h.params()[0])
+        gset = {f for f in G[q] if not f.startswith('<')}
+        for f, (_own, ann) in sorted(repo.class_fields(q).items()):
+            if f not in gset or not ast_bearing(ann.annotation):
+                continue
+            if f not in reads and (nm, f) in TRACE_UNVISITED:
+                ctx.ob('C11.R6', f'{nm}.{f}', True, loc=h.loc,
+                       sample='audited baseline: ' +
+                       TRACE_UNVISITED[(nm, f)], nontrivial=False)
+                continue
+            ctx.ob('C11.R6', f'{nm}.{f}', f in reads,
+                   f'{h.name} never visits {nm}.{f} '
+                   f'({norm(ann.annotation)[:40]}): references made there '
+                   f'do not become dependencies, so the declaration they '
+                   f'name may be emitted later', h.loc,
+                   sample=f'read by {h.name}')
+    # statement handlers with a WITH block establish the alias context
+    for q, h in sorted(reg.items()):
+        if q not in repo.classes or 'aliases' not in repo.class_fields(q):
+            continue
+        if f'{QLAST}.Query' not in repo.mro(q):
+            continue
+        calls = [c for c in ast.walk(h.node) if isinstance(c, ast.Call)
+                 and call_name(c) == 'alias_context' and len(c.args) >= 2
+                 and norm(c.args[1]).endswith('.aliases')]
+        deleg = [c for c in ast.walk(h.node) if isinstance(c, ast.Call)
+                 and call_name(c).startswith('_trace_')]
+        ok = bool(calls)
+        if not ok and deleg:
+            for c in deleg:
+                d = repo.functions.get(f'{TRACER}.{call_name(c)}')
+                if d and any(isinstance(x, ast.Call) and call_name(x) ==
+                             'alias_context' for x in ast.walk(d.node)):
+                    ok = True
+        ctx.ob('C11.R6', f'{h.name}:alias-context', ok,
+               f'{h.name} traces a statement with a WITH block without '
+               f'entering alias_context(node.aliases): WITH MODULE / WITH '
+               f'x := ... are ignored while resolving names', h.loc,
+               sample='with alias_context(ctx, node.aliases)')
+
+
+def _r7(repo, ctx):
+    ctx.floor('C11.R7', 2)
+    ac = repo.func(f'{TRACER}.alias_context')
+    ctx.saw(ac)
+    tm = repo.module(TRACER)
+    readers = []
+    for f in repo._funcs_of(tm):
+        if f.name in ('_fork_context', 'result_alias_context',
+                      'alias_context', '__init__'):
+            continue
+        for n in ast.walk(f.node):
+            if isinstance(n, ast.Attribute) and n.attr == 'module' \
+                    and isinstance(n.ctx, ast.Load) \
+                    and norm(n.value) in ('ctx', 'self', 'nctx'):
+                readers.append(f.name)
+    ctx.ob('C11.R7', 'tracer:default-module-readers', True,
+           loc=tm.rel(), sample=sorted(set(readers)), nontrivial=False)
+    g = CFG(ac.node)
+    tests = [n.id for n in g.nodes if n.kind == 'test' and
+             'ModuleAliasDecl' in norm(n.ast.test if hasattr(n.ast, 'test')
+                                       else n.ast)]
+    if not tests:
+        raise AnalysisError('C11.R7: ModuleAliasDecl branch of '
+                            'alias_context not found')
+    t = tests[0]
+    sets = [n.id for n in g.nodes if n.kind == 'stmt' and isinstance(
+        n.ast, ast.Assign) and any(norm(x) == 'ctx.module'
+                                   for x in n.ast.targets)
+        and norm(n.ast.value).endswith('.module')]
+    named = []
+    for n in g.nodes:
+        if n.kind != 'test':
+            continue
+        tx = norm(n.ast.test if hasattr(n.ast, 'test') else n.ast)
+        if tx in ('alias.alias', 'alias.alias is not None',
+                  'bool(alias.alias)'):
+            named.append((n.id, 'T'))
+        elif tx in ('(not alias.alias)', 'not alias.alias',
+                    'alias.alias is None'):
+            named.append((n.id, 'F'))
+    loop = [n.id for n in g.nodes if n.kind == 'for']
+    ok = True
+    if readers:
+        ok = bool(sets) and g.always_after(
+            t, sets, exits=set(loop) | {g.exit, g.raise_},
+            first_labels={'T'}, avoid_edges=named)
+    ctx.ob('C11.R7', 'alias_context:default-module', ok,
+           f'WITH MODULE <m> (no alias name) does not assign ctx.module, '
+           f'which {sorted(set(readers))[:4]} read to resolve unqualified '
+           f'names: a dependency on a same-document declaration of the '
+           f'aliased module is lost', ac.loc,
+           sample='else: ctx.module = alias.module')
+    # the forked contexts carry module and modaliases over
+    for fn in ('_fork_context',):
+        f = repo.func(f'{TRACER}.{fn}')
+        kws = {}
+        for c in ast.walk(f.node):
+            if isinstance(c, ast.Call) and call_name(c) == 'TracerContext':
+                kws = {k.arg: norm(k.value) for k in c.keywords}
+        ok = kws.get('module') == 'ctx.module' and 'ctx.modaliases' in \
+            kws.get('modaliases', '')
+        ctx.ob('C11.R7', f'{fn}:carries-module', ok,
+               f'{fn} does not carry module / modaliases into the forked '
+               f'context', f.loc, sample=f"module={kws.get('module')}")
+
+
+class _Sub:
+    def __init__(self, ctx, rule):
+        self._c = ctx
+        self._rule = rule
+
+    def __getattr__(self, k):
+        return getattr(self._c, k)
+
+    def ob(self, rule, *a, **kw):
+        return self._c.ob(self._rule, *a, **kw)
+
+    def fail(self, rule, *a, **kw):
+        return self._c.fail(self._rule, *a, **kw)
+
+    def floor(self, rule, n):
+        self._c.floor(self._rule, min(n, 5))
 
 
 class _B:
